@@ -34,7 +34,7 @@ def run(repo: Repo, chk: Check) -> None:
     key_position(repo, chk)
     api_twins(repo, chk)
     # shared obligations named by the statement: layouts, KEK duality, derivation, cache store, time -> interval
-    from .c02 import conventions, cover_guard
+    from .chain import chain_semantics
     from .c06 import layouts, shape_agreement
     from .c10 import get_key, store_key
 
@@ -42,8 +42,7 @@ def run(repo: Repo, chk: Check) -> None:
     for q in ("_pkcs7.EncryptedContentInfo", "_pkcs7.ContentInfo", "_pkcs7.EnvelopedData"):
         shape_agreement(repo, chk, repo.cls(q))
     f = repo.func("_gkdi.compute_l2_key")
-    cover_guard(repo, chk, f)
-    conventions(repo, chk, f)
+    chain_semantics(repo, chk, f, "O3")
     get_key(repo, chk)
     store_key(repo, chk)
     # "for any plaintext (..., >= 64 KiB)": the DER length writer has no capacity limit (C07-O2)
